@@ -255,6 +255,7 @@ const RT = {
       // z3 has no precise model of to_fp on a symbolic real (it answers with bogus models), so integers that fit go through a bit-vector
       this.st.flags.int2fp = true;
       const e = this.exactI(x);
+      if (x.negz) return '(ite ' + x.negz + ' ' + fpLit(-0) + ' ((_ to_fp 11 53) RNE ((_ int2bv 66) ' + e.t + ')))';
       if (e.lo >= -(1n << 64n) && e.hi <= (1n << 64n)) return '((_ to_fp 11 53) RNE ((_ int2bv 66) ' + e.t + '))';
       return '((_ to_fp 11 53) RNE (to_real ' + e.t + '))';
     }
@@ -532,10 +533,15 @@ const RT = {
           const res = new SNum('i', this.def('Int', '(ite (= ' + b.t + ' 0) 0 ' + r.t + ')'), r.lo, r.hi, 0);
           res.nan = this.def('Bool', '(= ' + b.t + ' 0)');
           this.st.flags.negzero = true;
+          if (a.lo < 0n) res.negz = this.def('Bool', '(and (< ' + a.t + ' 0) (not (= ' + b.t + ' 0)) (= ' + r.t + ' 0))');
           return res;
         }
         this.st.flags.negzero = true;
-        return this.mkI(r);
+        // a zero remainder of a negative dividend is -0 in JavaScript: remembered on this value object (.negz) and honoured when the very same
+        // value is converted to a double; any further integer operation makes a new value without the mark (coercions like >> 0 clear it for real)
+        const out = this.mkI(r);
+        if (out instanceof SNum && a.lo < 0n) out.negz = this.def('Bool', '(and (< ' + a.t + ' 0) (= ' + r.t + ' 0))');
+        return out;
       }
       case '<': return a.hi < b.lo ? true : a.lo >= b.hi ? false : this.B('(< ' + a.t + ' ' + b.t + ')');
       case '<=': return a.hi <= b.lo ? true : a.lo > b.hi ? false : this.B('(<= ' + a.t + ' ' + b.t + ')');
@@ -1301,7 +1307,7 @@ ShimMath.floor = v => { if (v instanceof RandomValue) { if (v.n === undefined) r
 // ---------------------------------------------------------------- one path = one execution of the program
 function serialise(v, depth) {
   depth = depth || 0;
-  if (v instanceof SNum) return v.k === 'i' ? { i: v.t, lo: String(v.lo), hi: String(v.hi), nan: v.nan || undefined, bv32: v.bv32 } : { f: v.t };
+  if (v instanceof SNum) return v.k === 'i' ? { i: v.t, lo: String(v.lo), hi: String(v.hi), nan: v.nan || undefined, bv32: v.bv32, negz: v.negz } : { f: v.t };
   if (v instanceof SBool) return { b: v.t };
   if (v instanceof SStr) return { s: v.chars.map(c => typeof c === 'number' ? c : (c instanceof NumSeg ? '#num' : c.t)) };
   if (v instanceof Quot) return { quot: [v.n.t, v.d.t] };
